@@ -378,20 +378,21 @@ Definition oeq_ren (V : list string) (rho : string -> string) (a a' : option sma
 Lemma oeq_ren_orel V rho a a' : oeq_ren V rho a a' <-> orel (fun x => In x V) rho a a'.
 Proof. destruct a, a'; cbn; tauto. Qed.
 
-(* V' = the renamed variables in ANY order (for instance sorted) *)
-Theorem derive_rename_gen rho V V' s :
-  inj_on V rho -> incl (stmt_names s) V ->
+(* V' = the renamed variables in ANY order (for instance sorted); N = the names rho is injective on:
+   the variables of V and every name occurring in s (the header names of for loops included) *)
+Theorem derive_rename_gen rho N V V' s :
+  inj_on N rho -> incl V N -> incl (stmt_names s) N ->
   (forall z, In z V' <-> In z (map rho V)) -> length V' = length V ->
   forall fuel cs idx,
     snd (derive fuel V' (rename_stmt rho s) cs idx) = snd (derive fuel V s cs idx) /\
-    oeq_ren V rho (fst (derive fuel V s cs idx)) (fst (derive fuel V' (rename_stmt rho s) cs idx)).
+    oeq_ren N rho (fst (derive fuel V s cs idx)) (fst (derive fuel V' (rename_stmt rho s) cs idx)).
 Proof.
-  intros Hinj Hincl HV' Hlen fuel cs idx.
+  intros Hinj HVN Hincl HV' Hlen fuel cs idx.
   assert (HV1 : forall v, In v V -> In (rho v) V').
   { intros v Hv. apply HV'. apply in_map. exact Hv. }
   assert (HV2 : forall z, In z V' -> exists v, In v V /\ z = rho v).
   { intros z Hz. apply HV' in Hz. apply in_map_iff in Hz. destruct Hz as [v [E Hv]]. exists v. auto. }
-  destruct (derive_rel (fun x => In x V) rho Hinj V V' (fun _ H => H) HV1 HV2 Hlen fuel s cs idx Hincl)
+  destruct (derive_rel (fun x => In x N) rho Hinj V V' HVN HV1 HV2 Hlen fuel s cs idx Hincl)
     as [E R].
   split; [exact E|]. apply oeq_ren_orel. exact R.
 Qed.
@@ -402,7 +403,23 @@ Theorem derive_rename rho V s :
     snd (derive fuel (map rho V) (rename_stmt rho s) cs idx) = snd (derive fuel V s cs idx) /\
     oeq_ren V rho (fst (derive fuel V s cs idx)) (fst (derive fuel (map rho V) (rename_stmt rho s) cs idx)).
 Proof.
-  intros Hinj Hincl. apply derive_rename_gen; [exact Hinj|exact Hincl|tauto|apply map_length].
+  intros Hinj Hincl. apply derive_rename_gen; [exact Hinj|apply incl_refl|exact Hincl|tauto|apply map_length].
+Qed.
+
+(* injectivity on the names of the statement is necessary: the loop variable of a counted loop is found
+   by a list difference on the header names, some of which are not variables of the statement *)
+Example rename_needs_header_names :
+  let s := SFor ["i"] [] ["i"; "n"] ["i"] (SConst "x") in
+  let rho := fun v : string => if String.eqb v "i" then "n"%string else v in
+  inj_on (stmt_vars s) rho /\ ~ inj_on (stmt_names s) rho /\
+  loop_compat ["i"] [] ["i"; "n"] ["i"] (SConst "x") = Some "n"%string /\
+  loop_compat (map rho ["i"]) [] (map rho ["i"; "n"]) (map rho ["i"]) (rename_stmt rho (SConst "x")) = None.
+Proof.
+  cbv zeta. split; [|split; [|split; reflexivity]].
+  - intros a b Ha Hb. cbn in Ha, Hb.
+    destruct Ha as [<-|[<-|[]]]; destruct Hb as [<-|[<-|[]]]; cbn; congruence.
+  - intros H. specialize (H "i" "n")%string. cbn in H.
+    assert (E : "i"%string = "n"%string) by (apply H; auto). discriminate E.
 Qed.
 
 (* ------------------------------------------------------------------ *)
@@ -444,6 +461,8 @@ Qed.
 (* ------------------------------------------------------------------ *)
 (* the hypotheses are satisfiable: a renaming that reverses the sort order *)
 
+Definition is_some {T} (o : option T) : bool := match o with Some _ => true | None => false end.
+
 Definition swap_xy (v : string) : string :=
   if String.eqb v "x" then "b"%string else if String.eqb v "y" then "a"%string else v.
 
@@ -454,8 +473,8 @@ Example rename_instance :
   inj_on V swap_xy /\ incl (stmt_names s) V /\
   map swap_xy V = ["b"; "a"]%string /\ sort_str (map swap_xy V) = ["a"; "b"]%string /\
   (* choices 0 and 2 at the two sites: the derivation exists on both sides *)
-  (exists A, fst (derive 10 V s [0; 2] 0) = Some A) /\
-  (exists A', fst (derive 10 (sort_str (map swap_xy V)) (rename_stmt swap_xy s) [0; 2] 0) = Some A').
+  is_some (fst (derive 10 V s [0; 2] 0)) = true /\
+  is_some (fst (derive 10 (sort_str (map swap_xy V)) (rename_stmt swap_xy s) [0; 2] 0)) = true.
 Proof.
   cbv zeta. split; [|split; [|split; [|split; [|split]]]].
   - intros a b Ha Hb. cbn in Ha, Hb.
@@ -463,6 +482,6 @@ Proof.
   - intros v Hv. cbn in Hv. cbn. tauto.
   - reflexivity.
   - reflexivity.
-  - vm_compute. eexists. reflexivity.
-  - vm_compute. eexists. reflexivity.
+  - vm_compute. reflexivity.
+  - vm_compute. reflexivity.
 Qed.
